@@ -61,6 +61,9 @@ def _run_cvc5(smt2, timeout_ms):
     exe = "/usr/bin/cvc5"
     if not os.path.exists(exe):
         return "unknown"
+    import re
+    for name in _CVC5_RENAMES:
+        smt2 = re.sub(r"(?<![\w.!])%s(?![\w.!])" % name, "uf_" + name, smt2)     # user-declared symbols that shadow cvc5's theory symbols
     with tempfile.NamedTemporaryFile("w", suffix=".smt2", delete=False) as f:
         f.write("(set-logic ALL)\n" + smt2 + "\n(check-sat)\n")
         path = f.name
@@ -75,20 +78,112 @@ def _run_cvc5(smt2, timeout_ms):
         os.unlink(path)
 
 
+def _z3_cli():
+    import shutil
+    for exe in ("z3-new", "/usr/bin/z3", "z3"):
+        p = shutil.which(exe) if not os.path.isabs(exe) else (exe if os.path.exists(exe) else None)
+        if p:
+            return p
+    return None
+
+
+_CVC5_RENAMES = ("arctan", "exp", "pow", "sin", "cos", "sqrt")
+
+
+def _portfolio(smt2, wall_ms, seeds=(1, 2, 3, 4, 5, 6)):
+    """The same query on several z3 processes that differ only in their random seed, plus cvc5: first definite answer wins.  Quantifier
+    instantiation is sensitive to the seed (the same VC: 1 s with one seed, > 60 s with another), so a portfolio turns an `unknown`
+    that depends on luck or on a busy machine into a stable verdict.  -> (result, backend)"""
+    exe = _z3_cli()
+    procs = []
+    tmp = tempfile.mkdtemp(prefix="pyvc_portfolio_")
+    try:
+        path = os.path.join(tmp, "q.smt2")
+        with open(path, "w") as f:
+            f.write(smt2 + "\n(check-sat)\n")
+        if exe:
+            for sd in seeds:
+                procs.append(("z3-cli(seed=%d)" % sd, subprocess.Popen([exe, "-T:%d" % max(1, int(wall_ms / 1000)), "smt.random_seed=%d" % sd, "sat.random_seed=%d" % sd, path],
+                                                                        stdout=subprocess.PIPE, stderr=subprocess.DEVNULL, text=True)))
+        if os.path.exists("/usr/bin/cvc5") and "pbeq" not in smt2:
+            import re
+            c5 = smt2
+            for name in _CVC5_RENAMES:
+                c5 = re.sub(r"(?<![\w.!])%s(?![\w.!])" % name, "uf_" + name, c5)
+            cpath = os.path.join(tmp, "c.smt2")
+            with open(cpath, "w") as f:
+                f.write("(set-logic ALL)\n" + c5 + "\n(check-sat)\n")
+            procs.append(("cvc5-cli", subprocess.Popen(["/usr/bin/cvc5", "--tlimit=%d" % int(wall_ms), cpath], stdout=subprocess.PIPE, stderr=subprocess.DEVNULL, text=True)))
+        deadline = time.time() + wall_ms / 1000.0 + 2
+        answer = ("unknown", None)
+        live = list(procs)
+        while live and time.time() < deadline and answer[0] == "unknown":
+            for item in list(live):
+                name, pr = item
+                if pr.poll() is not None:
+                    live.remove(item)
+                    out = (pr.stdout.read() or "").strip().splitlines()
+                    first = out[0].strip() if out else ""
+                    if first in ("sat", "unsat"):
+                        answer = (first, name)
+                        break
+            if answer[0] == "unknown" and live:
+                time.sleep(0.05)
+        return answer
+    finally:
+        for _, pr in procs:
+            if pr.poll() is None:
+                pr.kill()
+            try:
+                pr.stdout.close()
+            except Exception:
+                pass
+        import shutil
+        shutil.rmtree(tmp, ignore_errors=True)
+
+
 def check_sat(assumptions, timeout_ms=QUICK_TIMEOUT_MS, want_model=True, try_fallbacks=True):
     """Return (result, backend, model, ms, smt2)."""
     t0 = time.time()
     s = z3.Solver()
-    s.set("timeout", int(timeout_ms))
+    # a first, short in-process attempt (most obligations take milliseconds); what it leaves open goes to the seed portfolio below, which
+    # has the full budget -- a hard query is then not paid for twice
+    s.set("timeout", int(min(timeout_ms, 8000)) if try_fallbacks else int(timeout_ms))
     for a in assumptions:
         s.add(a)
     r = s.check()
     res = str(r)
+    if os.environ.get("VERIF_DUMP_SLOW") and (time.time() - t0) > 4.0:
+        try:
+            os.makedirs(os.environ["VERIF_DUMP_SLOW"], exist_ok=True)
+            with open(os.path.join(os.environ["VERIF_DUMP_SLOW"], "q%d_%s_%d.smt2" % (os.getpid(), res, int((time.time() - t0) * 1000))), "w") as f:
+                f.write(s.to_smt2())
+        except Exception:
+            pass
     backend = "z3-%s" % z3.get_version_string()
     model = None
     if r == z3.sat and want_model:
         model = s.model()
     smt2 = None
+    if res == "unknown" and try_fallbacks:
+        # first fall-back: seed portfolio (parallel processes, first definite answer wins)
+        smt2 = s.to_smt2().replace("(check-sat)", "")
+        r0, b0 = _portfolio(smt2, int(timeout_ms) * 3)
+        if r0 in ("sat", "unsat"):
+            res, backend = r0, b0
+            if r0 == "sat" and want_model:
+                # a model for the replay: the same query in-process with the seed that answered (best effort)
+                try:
+                    sd = int(b0.split("seed=")[1].rstrip(")")) if "seed=" in b0 else 0
+                    sm = z3.Solver()
+                    sm.set("timeout", int(timeout_ms) * 2)
+                    sm.set("random_seed", sd)
+                    for a in assumptions:
+                        sm.add(a)
+                    if sm.check() == z3.sat:
+                        model = sm.model()
+                except Exception:
+                    pass
     if res == "unknown" and try_fallbacks:
         # second opinion 1: nlsat tactic
         try:
